@@ -191,6 +191,8 @@ func checkC08(p *Prog, res *Result, tier string) {
 	res.rule("C08-R5", "the engines evaluate the CAS on the compaction record atomically with the write (C11-R1/R2): otherwise an overlapping older compaction lowers the floor", 6)
 	res.rule("C08-R6", "the compaction record is written without an engine TTL (C17-R5): a record that expires lowers the floor to nothing", 4)
 	res.rule("C08-R7", "whoever calls a function that writes the compaction record returns its error, whatever its class: a compaction whose record write lost a compare-and-swap is not reported as accepted", 2)
+	res.rule("C08-R8", "a compaction request is answered after the compaction record was written: no go statement on any call chain from a request entry point to Backend.Compact", 2)
+	res.rule("C08-R9", "the revision a compaction is answered with is the revision its record was raised to (the value handed to the record writer)", 1)
 	res.rule("C08-R4", "the floor check returns an error on the true branch of 'stored > requested' and returns nil only if the record is absent or not larger", 2)
 
 	// ---- R1 ----
@@ -271,6 +273,9 @@ func checkC08(p *Prog, res *Result, tier string) {
 			"the compaction is answered as accepted although its record was not written: the floor stays where another compaction put it, and reads below the answered revision are served")
 		errflowAcceptFailure, errflowNoClassification = false, false
 	}
+
+	checkCompactionAnsweredAfterRecord(p, r, res, "C08-R8")
+	checkCompactAnswerNamesRecord(p, r, ck, res, "C08-R9")
 
 	// ---- R4 (floor check shape) ----
 	checkFloorCheckShape(p, r, ck, res)
@@ -868,4 +873,165 @@ func checkPointReadOnlyForSingleKey(p *Prog, res *Result, rule string) {
 	if n == 0 {
 		res.und(rule, "etcd Range handler: point read", "-", "no call of the shim's Get found")
 	}
+}
+
+// checkCompactionAnsweredAfterRecord (C08-R8): a request that asks for a compaction is answered after the compaction
+// record was written (or failed to be): on no call chain from a request entry point to Backend.Compact is there a go
+// statement. An "accepted, will be done in the background" answer raises the floor some time after the client was
+// told it is raised - reads below the answered revision are served in between, and a failure of the record write is
+// never reported.
+func checkCompactionAnsweredAfterRecord(p *Prog, r *Roles, res *Result, rule string) {
+	type key struct {
+		f     *ssa.Function
+		async bool
+	}
+	n := 0
+	for _, entry := range p.requestEntries() {
+		seen := map[key]bool{}
+		var asyncAt, syncAt ssa.CallInstruction
+		var walk func(f *ssa.Function, async bool, via ssa.CallInstruction, d int)
+		walk = func(f *ssa.Function, async bool, via ssa.CallInstruction, d int) {
+			if f == nil || f.Blocks == nil || d > 6 || seen[key{f, async}] {
+				return
+			}
+			seen[key{f, async}] = true
+			for _, c := range callsIn(f) {
+				_, isGo := c.(*ssa.Go)
+				a := async || isGo
+				v := via
+				if isGo && !async {
+					v = c
+				}
+				if c.Common().IsInvoke() && (c.Common().Method == r.BCompact || (c.Common().Method.Name() == "Compact" && c.Common().Method.Pkg() != nil && strings.HasSuffix(c.Common().Method.Pkg().Path(), "pkg/server/etcd"))) {
+					if a {
+						asyncAt = v
+					} else {
+						syncAt = c
+					}
+					continue
+				}
+				for _, g := range p.calleesOf(c) {
+					if g.Pkg != nil && strings.HasPrefix(g.Pkg.Pkg.Path(), modPath+"/pkg/server") {
+						walk(g, a, v, d+1)
+					}
+				}
+			}
+		}
+		walk(entry, false, nil, 0)
+		if asyncAt == nil && syncAt == nil {
+			continue
+		}
+		n++
+		construct := funcName(entry) + ": the compaction is answered after its record was written"
+		if asyncAt != nil {
+			res.bad(rule, construct, p.pos(asyncAt.Pos()), "the request handler reaches Backend.Compact through a go statement: the client is told the compaction is accepted before the compaction record is written - until then reads below the answered revision are served, and if the write of the record fails nobody learns of it")
+		} else {
+			res.ok(rule, construct, p.pos(syncAt.Pos()), "Backend.Compact is called synchronously on every chain from the handler")
+		}
+	}
+	if n == 0 {
+		res.und(rule, "compaction request handlers", "-", "no request entry point reaches Backend.Compact")
+	}
+}
+
+// checkCompactAnswerNamesRecord (C08-R9): "compacted at R" is answered with the revision the compaction record was
+// raised to - the value handed to the function that writes the record - not with the revision before it was held
+// back behind a queued unknown-outcome write (reads between the two are served although the answer said otherwise).
+func checkCompactAnswerNamesRecord(p *Prog, r *Roles, ck *compactKeyRole, res *Result, rule string) {
+	bp := p.ssaPkg("pkg/backend")
+	// functions that (transitively, within pkg/backend) write the compaction record, with the parameter that carries the revision
+	writers := map[*ssa.Function]bool{}
+	for _, f := range p.AllFuncs {
+		if f.Pkg != bp {
+			continue
+		}
+		for _, c := range callsIn(f) {
+			var key ssa.Value
+			switch {
+			case r.is(c, r.BWCAS), r.is(c, r.BWPutIfNotExist), r.is(c, r.BWPut):
+				key = argForSigParam(c, 0)
+			}
+			if key != nil && c.Common().IsInvoke() && ck.isKey(key) {
+				writers[f] = true
+			}
+		}
+	}
+	for changed := true; changed; {
+		changed = false
+		for _, f := range p.AllFuncs {
+			if f.Pkg != bp || writers[f] || f.Blocks == nil {
+				continue
+			}
+			for _, c := range callsIn(f) {
+				if sc := c.Common().StaticCallee(); sc != nil && writers[sc] {
+					writers[f], changed = true, true
+				}
+			}
+		}
+	}
+	hdr := p.namedType("github.com/kubewharf/kubebrain-client/api/v2rpc", "ResponseHeader")
+	n := 0
+	for _, f := range p.implsOf(r.BCompact) {
+		if f.Pkg != bp || f.Blocks == nil {
+			continue
+		}
+		// the revision handed to the record writer
+		var recRev ssa.Value
+		var wc ssa.CallInstruction
+		for _, c := range callsIn(f) {
+			sc := c.Common().StaticCallee()
+			if sc == nil || !writers[sc] {
+				continue
+			}
+			for i, prm := range sc.Params {
+				if bt, ok := prm.Type().Underlying().(*types.Basic); ok && bt.Kind() == types.Uint64 && i < len(c.Common().Args) {
+					recRev, wc = c.Common().Args[i], c
+				}
+			}
+		}
+		if recRev == nil {
+			continue
+		}
+		// the revision of the header of the answer
+		var headerRevs []ssa.Value
+		var at []ssa.Instruction
+		for _, b := range f.Blocks {
+			for _, ins := range b.Instrs {
+				switch x := ins.(type) {
+				case *ssa.Store:
+					if fa, ok := x.Addr.(*ssa.FieldAddr); ok && fieldOf(fa).Name() == "Revision" {
+						if pt, ok := fa.X.Type().Underlying().(*types.Pointer); ok && types.Identical(pt.Elem(), hdr) {
+							headerRevs, at = append(headerRevs, x.Val), append(at, x)
+						}
+					}
+				case *ssa.Call:
+					sc := x.Common().StaticCallee()
+					if sc != nil && sc.Pkg == bp && sc.Signature.Results().Len() == 1 && len(x.Common().Args) == 1 {
+						if pt, ok := sc.Signature.Results().At(0).Type().Underlying().(*types.Pointer); ok && types.Identical(pt.Elem(), hdr) {
+							headerRevs, at = append(headerRevs, x.Common().Args[0]), append(at, x)
+						}
+					}
+				}
+			}
+		}
+		for i, hv := range headerRevs {
+			n++
+			construct := fmt.Sprintf("%s: header revision #%d of the answer is the revision of the record", funcName(f), i+1)
+			if resolve(hv) == resolve(recRev) {
+				res.ok(rule, construct, p.pos(at[i].Pos()), "the value handed to "+callNameOf(wc))
+			} else {
+				res.bad(rule, construct, p.pos(at[i].Pos()), "the answer names another revision than the one the compaction record is raised to (the requested revision instead of the one held back behind a queued unknown-outcome write): the client is told 'compacted at R' while the floor is below R, and reads between the two are still served")
+			}
+		}
+	}
+	if n == 0 {
+		res.und(rule, "Backend.Compact: header of the answer", "-", "no header built in the implementation of Backend.Compact")
+	}
+}
+
+func callNameOf(c ssa.CallInstruction) string {
+	if sc := c.Common().StaticCallee(); sc != nil {
+		return funcName(sc)
+	}
+	return "the record writer"
 }
